@@ -49,7 +49,9 @@ _TAGS = ['TagA', 'TagB', 'TagC', 'TagX']
 def strategy_(draw, tier):
   recipe = draw(dags.dag(
       max_nodes=9, min_nodes=2, tags=True, bts=('Config', 'Config', 'Partial'),
-      kinds=['B', 'B', 'list', 'list', 'dict', 'tuple', 'TV', 'TV', 'TV', 'Bpos', 'Bann', 'Bann'],
+      kinds=['B', 'B', 'list', 'list', 'dict', 'tuple', 'TV', 'TV', 'TV', 'Bpos', 'Bann', 'Bann',
+             # further node kinds of the shared generator that this check's oracle handles (each once)
+             'ddict', 'mdict', 'kdict', 'set', 'fset', 'ltuple', 'ntuple', 'nt', 'Bmut', 'Bmut1', 'Bmutnest', 'Bpo', 'Bpo3', 'Bdc', 'Bempty', 'AFP', 'odict', 'dcinst', 'Bdictcfg'],
       fns=['things:f2', 'things:h1', 'things:Base', 'things:annotated_fn'],
       root_kinds=['B', 'Bpos', 'Bann'], p_alias=0.75, allow_copyof=False))
   if draw(st.floats(0, 1)) < 0.3:
